@@ -46,6 +46,7 @@ namespace chaiscript::dispatch::detail {
       std::array<Boxed_Value, sizeof...(P)> params{box<P>(std::forward<P>(param))...};
 
       if (m_conversions) {
+        Conversion_Saves_Guard saves_guard(m_conversions->conversion_saves());
         Type_Conversions_State state(*m_conversions, m_conversions->conversion_saves());
         return call(chaiscript::Function_Params{params}, state);
       } else {
@@ -54,6 +55,29 @@ namespace chaiscript::dispatch::detail {
         return call(chaiscript::Function_Params{params}, state);
       }
     }
+
+    /// A call made from C++ through the std::function wrapper may start outside any script evaluation,
+    /// where nobody keeps the temporaries created by type conversions. Keep them until the call has returned.
+    struct Conversion_Saves_Guard {
+      explicit Conversion_Saves_Guard(Type_Conversions::Conversion_Saves &t_saves)
+          : m_saves(t_saves)
+          , m_was_enabled(t_saves.enabled) {
+        m_saves.enabled = true;
+      }
+
+      Conversion_Saves_Guard(const Conversion_Saves_Guard &) = delete;
+      Conversion_Saves_Guard &operator=(const Conversion_Saves_Guard &) = delete;
+
+      ~Conversion_Saves_Guard() {
+        if (!m_was_enabled) {
+          m_saves.enabled = false;
+          m_saves.saves.clear();
+        }
+      }
+
+      Type_Conversions::Conversion_Saves &m_saves;
+      const bool m_was_enabled;
+    };
 
     template<typename P, typename Q>
     static Boxed_Value box(Q &&q) {
